@@ -1,0 +1,132 @@
+// SPDX-FileCopyrightText: 2026 The Pion community <https://pion.ly>
+// SPDX-License-Identifier: MIT
+
+//go:build verif
+
+package ivfwriter
+
+// Contracts for the contract-based verification in /verif (build tag verif); comments only.
+
+// Assumed contracts on dependencies. The output writer is an event (ghost counter
+// wrWrites) and does not write this package's memory; a successful VP8/VP9 depacketisation
+// yields a non-empty payload (pion/rtp rejects header-only packets).
+//@ func (io.Writer).Write
+//@ trusted
+//@ ghost wrWrites += 1
+//@ modifies nothing
+//@ func (io.WriteSeeker).Write
+//@ trusted
+//@ ghost wrWrites += 1
+//@ modifies nothing
+//@ func (io.WriteSeeker).Seek
+//@ trusted
+//@ ghost wrSeeks += 1
+//@ modifies nothing
+//@ func (io.Closer).Close
+//@ trusted
+//@ modifies nothing
+//@ func (*codecs.VP8Packet).Unmarshal
+//@ trusted
+//@ ensures err == nil ==> len(p.Payload) >= 1
+//@ modifies *p
+//@ func (*codecs.VP9Packet).Unmarshal
+//@ trusted
+//@ ensures err == nil ==> len(p.Payload) >= 1
+//@ modifies *p
+
+// representation invariant of IVFWriter: NewWith refuses a zero denominator, only the
+// options write the configuration
+//@ field IVFWriter.timebaseDenominator props C32 writers NewWith, WithFrameRate$1
+//@ field IVFWriter.timebaseNumerator props C32 writers NewWith, WithFrameRate$1
+//@ field IVFWriter.directPTS props C32 writers WithDirectPTS$1
+//@ field IVFWriter.codec props C32 writers NewWith, WithCodec$1
+//@ field IVFWriter.videoWidth props C32 writers NewWith, WithWidthAndHeight$1
+//@ field IVFWriter.videoHeight props C32 writers NewWith, WithWidthAndHeight$1
+//@ field IVFWriter.count props C32 writers (*IVFWriter).writeFrame
+//@ field IVFWriter.seenKeyFrame props C32 writers NewWith, (*IVFWriter).writeVP8, (*IVFWriter).writeVP9, (*IVFWriter).writeAV1
+
+// The 32-byte file header: signature, version 0, header size 32, the FourCC of the
+// configured codec, width, height, time base denominator and numerator (little endian).
+//@ func (*IVFWriter).writeHeader
+//@ props C32
+//@ requires i != nil && i.ioWriter != nil
+//@ atcall (io.Writer).Write assert len(callarg1) == 32 && callarg1[0] == 'D' && callarg1[1] == 'K' && callarg1[2] == 'I' && callarg1[3] == 'F' && callarg1[4] == 0 && callarg1[5] == 0 && callarg1[6] == 32 && callarg1[7] == 0
+//@ atcall (io.Writer).Write assert i.codec == codecVP8 ==> callarg1[8] == 'V' && callarg1[9] == 'P' && callarg1[10] == '8' && callarg1[11] == '0'
+//@ atcall (io.Writer).Write assert i.codec == codecVP9 ==> callarg1[8] == 'V' && callarg1[9] == 'P' && callarg1[10] == '9' && callarg1[11] == '0'
+//@ atcall (io.Writer).Write assert i.codec == codecAV1 ==> callarg1[8] == 'A' && callarg1[9] == 'V' && callarg1[10] == '0' && callarg1[11] == '1'
+//@ atcall (io.Writer).Write assert callarg1[12] == byte(i.videoWidth) && callarg1[13] == byte(i.videoWidth >> 8) && callarg1[14] == byte(i.videoHeight) && callarg1[15] == byte(i.videoHeight >> 8)
+//@ atcall (io.Writer).Write assert callarg1[16] == byte(i.timebaseDenominator) && callarg1[17] == byte(i.timebaseDenominator >> 8) && callarg1[18] == byte(i.timebaseDenominator >> 16) && callarg1[19] == byte(i.timebaseDenominator >> 24)
+//@ atcall (io.Writer).Write assert callarg1[20] == byte(i.timebaseNumerator) && callarg1[21] == byte(i.timebaseNumerator >> 8) && callarg1[22] == byte(i.timebaseNumerator >> 16) && callarg1[23] == byte(i.timebaseNumerator >> 24)
+//@ ensures (i.codec == codecVP8 || i.codec == codecVP9 || i.codec == codecAV1) ==> ghost(wrWrites) == old(ghost(wrWrites)) + 1
+//@ ensures !(i.codec == codecVP8 || i.codec == codecVP9 || i.codec == codecAV1) ==> err != nil && ghost(wrWrites) == old(ghost(wrWrites))
+
+//@ func (*IVFWriter).timestampToPts
+//@ props C32
+//@ requires i != nil && i.timebaseDenominator != 0
+//@ ensures result == timestamp * uint64(i.timebaseNumerator) / uint64(i.timebaseDenominator)
+//@ modifies nothing
+
+// One frame record: the 12-byte frame header (frame length, presentation time stamp;
+// little endian) followed by the frame bytes themselves; the frame counter grows by one.
+//@ func (*IVFWriter).writeFrame
+//@ props C32
+//@ requires i != nil && i.ioWriter != nil && (i.directPTS || i.timebaseDenominator != 0)
+//@ atcall (io.Writer).Write assert ghost(wrWrites) == old(ghost(wrWrites)) ==> len(callarg1) == 12 && callarg1[0] == byte(len(frame)) && callarg1[1] == byte(len(frame) >> 8) && callarg1[2] == byte(len(frame) >> 16) && callarg1[3] == byte(len(frame) >> 24)
+//@ atcall (io.Writer).Write assert ghost(wrWrites) == old(ghost(wrWrites)) ==> pts == ite(i.directPTS, timestamp, timestamp * uint64(i.timebaseNumerator) / uint64(i.timebaseDenominator))
+//@ atcall (io.Writer).Write assert ghost(wrWrites) == old(ghost(wrWrites)) ==> callarg1[4] == byte(pts) && callarg1[5] == byte(pts >> 8) && callarg1[6] == byte(pts >> 16) && callarg1[7] == byte(pts >> 24) && callarg1[8] == byte(pts >> 32) && callarg1[9] == byte(pts >> 40) && callarg1[10] == byte(pts >> 48) && callarg1[11] == byte(pts >> 56)
+//@ atcall (io.Writer).Write assert ghost(wrWrites) == old(ghost(wrWrites)) + 1 ==> sameptr(callarg1, frame) && len(callarg1) == len(frame)
+//@ atcall (io.Writer).Write assert ghost(wrWrites) == old(ghost(wrWrites)) || ghost(wrWrites) == old(ghost(wrWrites)) + 1
+//@ ensures i.count == old(i.count) + 1
+//@ ensures err == nil ==> ghost(wrWrites) == old(ghost(wrWrites)) + 2
+//@ ensures i.seenKeyFrame == old(i.seenKeyFrame)
+//@ modifies i.count
+
+// An option may set any field of the writer under construction (assumed contract for the
+// calls through the Option function type).
+//@ func functype Option
+//@ trusted
+//@ modifies *i
+
+// NewWith: the header goes out once, and a writer never exists with a zero denominator.
+//@ func NewWith
+//@ props C32
+//@ nosafety
+//@ ensures err == nil ==> ret0 != nil && ret0.timebaseDenominator != 0
+//@ ensures err == nil ==> ret0.codec == codecVP8 || ret0.codec == codecVP9 || ret0.codec == codecAV1
+
+// Close on a seekable output patches the frame count (32 bits, little endian) at offset 24.
+//@ func (*IVFWriter).Close
+//@ props C32
+//@ requires i != nil
+//@ atcall (io.WriteSeeker).Seek assert callarg1 == 24 && callarg2 == 0
+//@ atcall (io.WriteSeeker).Write assert ghost(wrSeeks) == old(ghost(wrSeeks)) + 1 && len(callarg1) == 4 && callarg1[0] == byte(i.count) && callarg1[1] == byte(i.count >> 8) && callarg1[2] == byte(i.count >> 16) && callarg1[3] == byte(i.count >> 24)
+//@ ensures i.count == old(i.count)
+
+// Keyframe gating (VP8): nothing is written, and the gate stays shut, while no keyframe
+// packet has been seen; the frame counter grows by at most one per packet.
+//@ func (*IVFWriter).writeVP8
+//@ props C32
+//@ deadreturn 1
+//@ requires i != nil && packet != nil && i.ioWriter != nil && (i.directPTS || i.timebaseDenominator != 0)
+//@ ensures old(i.seenKeyFrame) ==> i.seenKeyFrame
+//@ ensures !i.seenKeyFrame ==> ghost(wrWrites) == old(ghost(wrWrites)) && i.count == old(i.count)
+//@ ensures i.count == old(i.count) || (i.count == old(i.count) + 1 && packet.Marker)
+//@ atcall (*IVFWriter).writeFrame assert i.seenKeyFrame && packet.Marker && len(callarg1) > 0
+
+//@ func (*IVFWriter).writeVP9
+//@ props C32
+//@ deadreturn 1
+//@ requires i != nil && packet != nil && i.ioWriter != nil && (i.directPTS || i.timebaseDenominator != 0)
+//@ ensures old(i.seenKeyFrame) ==> i.seenKeyFrame
+//@ ensures !i.seenKeyFrame ==> ghost(wrWrites) == old(ghost(wrWrites)) && i.count == old(i.count)
+//@ ensures i.count == old(i.count) || (i.count == old(i.count) + 1 && packet.Marker)
+//@ atcall (*IVFWriter).writeFrame assert i.seenKeyFrame && packet.Marker && len(callarg1) > 0
+
+// The inverse lemma tying the writer's little-endian fields to the reader's decoding
+// (pkg/media/ivfreader contracts): decode(encode(x)) == x for the 16-, 32- and 64-bit fields.
+//@ lemma ivf_little_endian_roundtrip
+//@ props C32
+//@ vars a uint16, b uint32, c uint64
+//@ ensures uint16(byte(a)) | uint16(byte(a >> 8))<<8 == a
+//@ ensures uint32(byte(b)) | uint32(byte(b >> 8))<<8 | uint32(byte(b >> 16))<<16 | uint32(byte(b >> 24))<<24 == b
+//@ ensures uint64(byte(c)) | uint64(byte(c >> 8))<<8 | uint64(byte(c >> 16))<<16 | uint64(byte(c >> 24))<<24 | uint64(byte(c >> 32))<<32 | uint64(byte(c >> 40))<<40 | uint64(byte(c >> 48))<<48 | uint64(byte(c >> 56))<<56 == c
